@@ -62,6 +62,14 @@ def one_prop(prop):
         for d in sorted((V / "seeded" / prop).iterdir()):
             if not (d / "patch.diff").exists():
                 continue
+            try:
+                retired = json.loads((d / "meta.json").read_text()).get("retired")
+            except Exception:
+                retired = None
+            if retired:
+                out[d.name] = {"status": "retired", "why": retired[:200]}
+                print(f"{prop}/{d.name}: retired ({retired[:80]}…)", flush=True)
+                continue
             subprocess.check_call(["git", "-C", str(wt), "checkout", "-q", "--", "."])
             subprocess.run(["git", "-C", str(wt), "clean", "-fdq"], capture_output=True)
             ap = subprocess.run(["git", "-C", str(wt), "apply", str(d / "patch.diff")], capture_output=True, text=True)
